@@ -27,6 +27,8 @@ def solver_check(fn):
             R, tech = holder["R"], holder.get("tech", "abstract interpretation")
         R.add(SA.fault_obs())
         R.add(grid_obs(SA))
+        R.add(dtype_obs(SA))
+        R.add(index_obs(SA))
         # the solver rules are decided for one solve in a fresh process; they hold for every call only if a solve
         # cannot observe an earlier one (module-level state on the solve path: R-STATE / R-MEMO, shared with C12)
         import props_state as ps
@@ -38,6 +40,39 @@ def solver_check(fn):
 
     wrapper.__name__ = fn.__name__
     return wrapper
+
+
+def dtype_obs(SA):
+    """R-DTYPE: no computed (real or complex) value is stored into storage whose dtype is inherited from a caller's array:
+    with integer-typed z, profiles or source the value would be truncated silently"""
+    seen = {}
+    n = 0
+    for key, (S, res) in SA.runs.items():
+        for r in res:
+            n += 1
+            for e in r.events:
+                if e[0] == "dtype":
+                    seen.setdefault((e[1], e[2]), key)
+    site = "src/bldfm/solver.py::steady_state_transport_solver and callees"
+    if not seen:
+        return [req_ob("R-DTYPE", site, "no computed value is stored into storage typed by a caller's array (integer grids, profiles and sources are not truncated) (%d paths)" % n, True)]
+    return [req_ob("R-DTYPE", site, "no computed value is stored into storage typed by a caller's array", False, detail="%s: %s" % k, key={"where": k[0]}) for k in sorted(seen)]
+
+
+def index_obs(SA):
+    """R-INDEX: no array is read at an index that can be negative for legal inputs (numpy would wrap it around)"""
+    seen = {}
+    n = 0
+    for key, (S, res) in SA.runs.items():
+        for r in res:
+            n += 1
+            for e in r.events:
+                if e[0] == "index-wrap":
+                    seen.setdefault((e[1], e[2]), key)
+    site = "src/bldfm/solver.py::steady_state_transport_solver and callees"
+    if not seen:
+        return [req_ob("R-INDEX", site, "no array is read at an index that can be negative for legal inputs (%d paths)" % n, True)]
+    return [req_ob("R-INDEX", site, "no array is read at an index that can be negative for legal inputs", False, detail="%s: %s" % k, key={"where": k[0]}) for k in sorted(seen)]
 
 
 def grid_obs(SA):
